@@ -45,6 +45,21 @@ type Snap struct {
 	Delegators  int        `json:"pool_delegators"`
 	Compound    int        `json:"compound_infos"`
 	Rewards     int        `json:"rewards"`
+	IdRecords   [][2]uint64 `json:"identity_records"` // (id, owner*1000+key code)
+	IdIndex     [][2]uint64 `json:"identity_index"`   // (owner*1000+key code, id)
+	IdLast      uint64      `json:"identity_last_id"`
+	DTreasury   int64       `json:"distributor_treasury_ukex"`
+	DSnap       int64       `json:"distributor_snap_period"`
+	DVotes      [][2]int64  `json:"distributor_votes"` // (validator index, height)
+	DProposer   int64       `json:"distributor_proposer"`
+}
+
+func keyCode(k string) uint64 {
+	var h uint64
+	for i := 0; i < len(k); i++ {
+		h = (h*131 + uint64(k[i])) % 1000003
+	}
+	return h
 }
 
 // uncommitted marks chains that were initialised (InitChain) but have not run a block yet: their
@@ -115,6 +130,48 @@ func TakeSnap(c *abci.Chain) Snap {
 		s.Undels = append(s.Undels, u.Id)
 	}
 	sort.Slice(s.Undels, func(i, j int) bool { return s.Undels[i] < s.Undels[j] })
+	// identity registrar
+	ownerIdx := func(addr string) uint64 {
+		for i, a := range c.Accounts {
+			if a.Addr.String() == addr {
+				return uint64(i + 1)
+			}
+		}
+		return 0
+	}
+	for _, r := range k.GetAllIdentityRecords(ctx) {
+		s.IdRecords = append(s.IdRecords, [2]uint64{r.Id, ownerIdx(r.Address)*10000000 + keyCode(r.Key)})
+	}
+	ii := sdk.KVStorePrefixIterator(store, govtypes.KeyPrefixIdentityRecordByAddress)
+	for ; ii.Valid(); ii.Next() {
+		rest := string(ii.Key()[len(govtypes.KeyPrefixIdentityRecordByAddress):])
+		owner, key := uint64(0), rest
+		for i, a := range c.Accounts {
+			if strings.HasPrefix(rest, a.Addr.String()) {
+				owner, key = uint64(i+1), rest[len(a.Addr.String()):]
+			}
+		}
+		s.IdIndex = append(s.IdIndex, [2]uint64{owner*10000000 + keyCode(key), sdk.BigEndianToUint64(ii.Value())})
+	}
+	ii.Close()
+	s.IdLast = k.GetLastIdentityRecordId(ctx)
+	// distributor
+	dk := c.App.DistrKeeper
+	s.DTreasury = dk.GetFeesTreasury(ctx).AmountOf("ukex").Int64()
+	s.DSnap = dk.GetSnapPeriod(ctx)
+	valIdx := func(cons string) int64 {
+		for i, v := range c.Validators {
+			if v.ConsAddr.String() == cons {
+				return int64(i)
+			}
+		}
+		return 99
+	}
+	for _, v := range dk.GetAllValidatorVotes(ctx) {
+		s.DVotes = append(s.DVotes, [2]int64{valIdx(v.ConsAddr), v.Height})
+	}
+	s.DProposer = -1
+	hx.Try(func() { s.DProposer = valIdx(dk.GetPreviousProposerConsAddr(ctx).String()) })
 	s.Compound = len(mk.GetAllCompoundInfo(ctx))
 	s.Rewards = len(mk.GetAllDelegatorRewards(ctx))
 	return s
@@ -296,9 +353,20 @@ func snapCoq(s Snap) string {
 	for _, e := range s.RoleIndex {
 		idx = append(idx, hx.Pair(hx.ZU(e[0]), hx.ZU(e[1])))
 	}
-	return fmt.Sprintf("(mkSnap %s %s %s %s %s %s %s %s (mkMs %s %s %s %s %d %d))", hx.List(roles), zlist(s.RoleInfos), hx.List(idx), hx.ZU(s.NextRole),
+	var idr, idi, dv []string
+	for _, e := range s.IdRecords {
+		idr = append(idr, hx.Pair(hx.ZU(e[0]), hx.ZU(e[1])))
+	}
+	for _, e := range s.IdIndex {
+		idi = append(idi, hx.Pair(hx.ZU(e[0]), hx.ZU(e[1])))
+	}
+	for _, e := range s.DVotes {
+		dv = append(dv, hx.Pair(hx.Z(e[0]), hx.Z(e[1])))
+	}
+	return fmt.Sprintf("(mkSnap %s %s %s %s %s %s %s %s (mkMs %s %s %s %s %d %d) %s %s %s %s %s %s %s)", hx.List(roles), zlist(s.RoleInfos), hx.List(idx), hx.ZU(s.NextRole),
 		hx.List(props), zlist(s.ActiveQ), zlist(s.EnactQ), hx.ZU(s.NextProp),
-		hx.ZU(s.LastPool), hx.ZU(s.LastUndel), zlist(s.Pools), zlist(s.Undels), s.Delegators, s.Compound)
+		hx.ZU(s.LastPool), hx.ZU(s.LastUndel), zlist(s.Pools), zlist(s.Undels), s.Delegators, s.Compound,
+		hx.List(idr), hx.List(idi), hx.ZU(s.IdLast), hx.Z(s.DTreasury), hx.Z(s.DSnap), hx.List(dv), hx.Z(s.DProposer))
 }
 
 func Emit(out hx.Out, cases []Case, dist hx.Counter) {
@@ -309,7 +377,7 @@ func Emit(out hx.Out, cases []Case, dist hx.Counter) {
 		case c.ExportPanic != "":
 			status = "(RExportPanic " + hx.Str(c.ExportPanicModule) + ")"
 		case c.ImportPanic2 != "":
-			status = "RImportPanic"
+			status = "(RImportPanic " + hx.Str(c.ImportPanicClass) + ")"
 		}
 		var pop, diffs, probes, e2 []string
 		for _, p := range c.Populated {
